@@ -193,13 +193,21 @@ class World:
         mode = self.dealer
         st = self.state
         if mode == 'hidden':
-            # unknown cards only where nothing has to read them: burns and face-down hole cards
+            # unknown cards only where nothing has to read them: burns and face-down hole cards; a card may also be
+            # half known (rank without suit "A?", suit without rank "?s") - it is still an unknown card
+            def unknown():
+                form = self.ch.weighted('dealer.unknown_form', (4, 1, 1))
+                if form == 1:
+                    return 'A23456789TJQK'[self.ch.pick('dealer.unknown_rank', 13)] + '?'
+                if form == 2:
+                    return '?' + 'cdhs'[self.ch.pick('dealer.unknown_suit', 4)]
+                return '??'
             if kind == 'burn':
                 self.ctx.fault('hidden_cards')
-                return '??'
+                return unknown()
             if kind == 'hole' and not any(list(st.hole_dealing_statuses[player_index])[:k]):
                 self.ctx.fault('hidden_cards', k)
-                return '??' * k
+                return ''.join(unknown() for _ in range(k))
             return None if k == 1 else k
         if mode == 'engine':
             return None
